@@ -16,6 +16,8 @@ HARNESSES = [
     Harness('c02_export_sixteen_params_are_flat', 'export.16_params_flat_user_called_once_direct_result', G + 'export, 16 x u32 -> u32', bounded=B),
     Harness('c02_export_seventeen_params_record_read_and_freed_once', 'export.17_params_record_read_and_freed_exactly_once', G + 'export, 17 x u32 -> u32', bounded=B),
     Harness('c02_export_aggregate_result_through_return_area', 'export.aggregate_result_through_return_area', G + 'export, u32 -> tuple<u32, u64>', bounded=B),
+    Harness('c02_import_mixed_params_record_has_canonical_padding', 'import.mixed_params_record_canonical_padding', G + 'import, (u8, u64, u16, u32, u8, u64, 11 x u32) -> u32', bounded=B),
+    Harness('c02_export_mixed_params_record_read_at_canonical_offsets_freed_once', 'export.mixed_params_record_canonical_offsets_freed_once', G + 'export, same signature', bounded=B),
 ]
 # canonical core signatures (CanonicalABI.md flatten_functype with MAX_FLAT_PARAMS = 16, MAX_FLAT_RESULTS = 1), as Rust text
 I16 = ','.join('arg%d: i32' % i for i in range(16)) + ','
@@ -25,6 +27,8 @@ SIGS = [
     ('export.pair', r'pub unsafe fn _export_pair_cabi<T_: Guest>\(([^)]*)\)\s*->\s*([^{]+?)\s*\{', 'arg0: i32,', '*mut u8'),
     ('import.sixteen', r'#\[link_name = "sixteen"\]\s*fn \w+\(([^)]*)\)\s*->\s*([^;]+);', '_: i32, ' * 16, 'i32'),
     ('import.seventeen', r'#\[link_name = "seventeen"\]\s*fn \w+\(([^)]*)\)\s*->\s*([^;]+);', '_: *mut u8, ', 'i32'),
+    ('export.mixed', r'pub unsafe fn _export_mixed_cabi<T_: Guest>\(([^)]*)\)\s*->\s*([^{]+?)\s*\{', 'arg0: *mut u8,', 'i32'),
+    ('import.mixed', r'#\[link_name = "mixed"\]\s*fn \w+\(([^)]*)\)\s*->\s*([^;]+);', '_: *mut u8, ', 'i32'),
     ('import.pair', r'#\[link_name = "pair"\]\s*fn \w+\(([^)]*)\)()\s*;', '_: i32, _: *mut u8, ', ''),
     # async exports report their result through task.return, whose core signature is the flattened RESULT limited by the
     # same 16-value rule as parameters (5 values: flat; 17 values: one pointer)
